@@ -158,6 +158,9 @@ func (lip4) Run(c Case) (res Result) {
 			fix, csum, d := lnParseFCD(a[1])
 			payload := lnUnhex(a[2])
 			ip := mk()
+			if ob := ip4OptTotal(ip); ob >= 36 && ob <= 44 {
+				res.Tags = append(res.Tags, fmt.Sprintf("option-bytes-%d", ob))
+			}
 			if ip4OptTotal(ip)%4 != 0 {
 				res.Tags = append(res.Tags, "pad-residue")
 			}
@@ -176,29 +179,39 @@ func (lip4) Run(c Case) (res Result) {
 				res.Tags = append(res.Tags, "odd-payload")
 			}
 			res.Oracle = append(res.Oracle, lnJunkOracle(func() gopacket.SerializableLayer { return mk() }, payload, fix, csum)...)
-		case "rt", "bigrt":
+		case "rt", "bigrt", "newrt":
+			// newrt:<spec>,<payloadhex>: like rt, on a layer built from public fields that is well-formed when its
+			// options take at most 40 bytes (the generator only emits such specs); beyond 40 SerializeTo must refuse
 			var payload []byte
-			if name == "rt" {
+			if name == "rt" || name == "newrt" {
 				payload = lnUnhex(a[1])
 			} else {
 				payload = udpLCG(lnAtoi(a[1]), lnAtoi(a[2])) // bigrt:<hex>,<n>,<seed>: n pseudo-random payload bytes, summarised observation
 				res.Tags = append(res.Tags, "big-payload")
 			}
 			ip := &layers.IPv4{}
-			cls, _ := ip4Decode(ip, lnUnhex(a[0]))
-			if cls != "ok" {
+			if name == "newrt" {
+				ip = ip4FromSpec(a[0])
+			} else if cls, _ := ip4Decode(ip, lnUnhex(a[0])); cls != "ok" {
 				res.Obs = append(res.Obs, "first="+cls)
 				break
+			}
+			optBytes := ip4OptTotal(ip)
+			if optBytes >= 36 {
+				res.Tags = append(res.Tags, fmt.Sprintf("option-bytes-%d", optBytes))
 			}
 			scls, out := lnSerialize(ip, 0, payload, true, true)
 			if scls != "ok" {
 				res.Obs = append(res.Obs, "ser="+scls)
 				if scls == "panic" {
-					res.Oracle = append(res.Oracle, "C07:panic\tSerializeTo of a decoded layer panicked")
-				} else {
-					res.Oracle = append(res.Oracle, "C06:roundtrip\tdecoded layer cannot be serialized: error")
+					res.Oracle = append(res.Oracle, "C07:panic\tSerializeTo panicked")
+				} else if optBytes <= 40 {
+					res.Oracle = append(res.Oracle, fmt.Sprintf("C06:roundtrip\tlayer with %d option bytes (<= 40) cannot be serialized: error", optBytes))
 				}
 				break
+			}
+			if optBytes > 40 {
+				res.Oracle = append(res.Oracle, fmt.Sprintf("C06:roundtrip\tlayer with %d option bytes (> 40, IHL > 15) was serialized", optBytes))
 			}
 			if len(ip.Options) >= 2 {
 				res.Tags = append(res.Tags, "two-or-more-options")
@@ -208,7 +221,7 @@ func (lip4) Run(c Case) (res Result) {
 			}
 			ip2 := &layers.IPv4{}
 			cls2, tr2 := ip4Decode(ip2, out)
-			if name == "rt" {
+			if name != "bigrt" {
 				res.Obs = append(res.Obs, ip4Obs(cls2, tr2, ip2))
 			} else {
 				res.Obs = append(res.Obs, fmt.Sprintf("cls=%s;tr=%s;%s;clen=%d;plen=%d", cls2, lnB(tr2), ip4Fields(ip2), len(ip2.Contents), len(ip2.Payload)))
@@ -522,6 +535,117 @@ func (lip4) Gen(rng *rand.Rand, tier string) []Case {
 			p, _ := ip4RandPacket(rng)
 			add("dec2:" + hx(q) + "," + hx(p))
 		}
+	}
+	// (h) option lists totalling 36..44 bytes in every composition: 40 (IHL 15) is the last size a header
+	// can hold, 41.. must be refused.  Built from fields (all sizes) and decoded from bytes (IHL 14, 15).
+	type optc struct {
+		t, l int
+		d []byte
+	}
+	opt := func(l int) optc { return optc{lnPick(rng, 7, 68, 130, 131, 137), l, lnRandBytes(rng, l-2)} }
+	nop, eolo := optc{1, 1, nil}, optc{0, 1, nil}
+	rep := func(o func() optc, n int) (r []optc) {
+		for i := 0; i < n; i++ {
+			r = append(r, o())
+		}
+		return
+	}
+	comps := func(T int) (wf, other [][]optc) {
+		nops := func(n int) []optc { return rep(func() optc { return nop }, n) }
+		all := [][]optc{
+			{opt(T)},                                   // one long option
+			append([]optc{nop}, opt(T-1)),               // ping -R: NOP + record route
+			nops(T),                                    // only NOPs
+			append(rep(func() optc { return opt(3) }, T/3), nops(T%3)...), // many 3 byte options
+			append(rep(func() optc { return opt(4) }, T/4), nops(T%4)...), // many 4 byte options
+			append(rep(func() optc { return opt(lnPick(rng, 3, 5, 8, 11)) }, 2), opt(T-22)), // mixed
+		}
+		for i, c := range all {
+			if i == 5 { // fix the mixed one up to exactly T
+				sum := 0
+				for _, o := range c[:2] {
+					sum += o.l
+				}
+				c[2] = opt(T - sum)
+			}
+			if T%4 == 0 {
+				wf = append(wf, c)
+			} else {
+				other = append(other, c)
+			}
+		}
+		// end-of-options terminated: well-formed for every T
+		wf = append(wf, []optc{opt(T - 1), eolo}, append(nops(T-4), opt(3), eolo), []optc{opt(T - 4), nop, nop, nop, eolo})
+		return
+	}
+	specOf := func(c []optc, payloadLen int, pad string) string {
+		var os []string
+		sum := 0
+		for _, o := range c {
+			os = append(os, fmt.Sprintf("%d-%d-%s", o.t, o.l, hx(o.d)))
+			sum += o.l
+		}
+		words := (sum + 3) / 4
+		return fmt.Sprintf("4.%d.0.%d.%d.%d.%d.64.17.0.%s.%s.%s.%s", (5+words)%256, 20+4*words+payloadLen, rng.Intn(65536), rng.Intn(8), rng.Intn(8192),
+			hx(lnRandBytes(rng, 4)), hx(lnRandBytes(rng, 4)), pad, strings.Join(os, "/"))
+	}
+	areaOf := func(c []optc) (a []byte) {
+		for _, o := range c {
+			if o.t <= 1 {
+				a = append(a, byte(o.t))
+			} else {
+				a = append(append(a, byte(o.t), byte(o.l)), o.d...)
+			}
+		}
+		return
+	}
+	for T := 36; T <= 44; T++ {
+		wf, other := comps(T)
+		for _, c := range wf {
+			pl := payloads()
+			add("tag:option-bytes-boundary", "newrt:"+specOf(c, len(pl), "")+","+hx(pl))
+			add("tag:option-bytes-boundary", "new:"+specOf(c, len(pl), "")+",11"+fmt.Sprint(rng.Intn(3))+","+hx(pl))
+			add("tag:option-bytes-boundary", "new:"+specOf(c, len(pl), hx(lnRandBytes(rng, rng.Intn(4))))+",0"+fmt.Sprint(rng.Intn(2))+fmt.Sprint(rng.Intn(3))+","+hx(pl))
+			if a := areaOf(c); len(a) <= 40 {
+				for len(a)%4 != 0 { // after the EOL: padding, zero or not
+					a = append(a, byte(rng.Intn(2)*rng.Intn(256)))
+				}
+				p := ip4Packet(rng, a, payloads())
+				add("tag:option-bytes-boundary", "dec:"+hx(p))
+				add("tag:option-bytes-boundary", "rt:"+hx(p)+","+hx(payloads()))
+				add("tag:option-bytes-boundary", "ser:"+hx(p)+",11"+fmt.Sprint(rng.Intn(3))+","+hx(pl))
+				add("tag:option-bytes-boundary", "ser:"+hx(p)+",0"+fmt.Sprint(rng.Intn(2))+fmt.Sprint(rng.Intn(3))+","+hx(pl))
+			}
+		}
+		for _, c := range other {
+			pl := payloads()
+			add("tag:option-bytes-boundary", "new:"+specOf(c, len(pl), "")+",11"+fmt.Sprint(rng.Intn(3))+","+hx(pl))
+			add("tag:option-bytes-boundary", "new:"+specOf(c, len(pl), "")+",0"+fmt.Sprint(rng.Intn(2))+fmt.Sprint(rng.Intn(3))+","+hx(pl))
+		}
+	}
+	// (i) serializer guards from both sides: OptionLength 0..3 (must be >= 2) with OptionData of
+	// OptionLength-3 .. OptionLength-1 bytes (must be <= OptionLength-2), alone and after three NOPs
+	for l := 0; l <= 4; l++ {
+		for dl := l - 3; dl <= l-1; dl++ {
+			if dl < 0 {
+				continue
+			}
+			for _, pre := range []string{"", "1-1-/1-1-/1-1-/"} {
+				spec := fmt.Sprintf("4.5.0.0.1.0.0.64.17.0.0a000001.0a000002..%s9-%d-%s", pre, l, hx(lnRandBytes(rng, dl)))
+				for _, fcd := range []string{"110", "111", "001"} {
+					add("tag:option-length-extreme", "new:"+spec+","+fcd+","+hx(payloads()))
+				}
+			}
+		}
+	}
+	// address lengths around 4 and 16 (AddressTo4: 4 bytes, or 16 bytes v4-mapped)
+	for _, n := range []int{0, 3, 4, 5, 15, 16, 17} {
+		a := lnRandBytes(rng, n)
+		if n == 16 {
+			a = append(append(make([]byte, 10), 0xff, 0xff), lnRandBytes(rng, 4)...)
+		}
+		add("new:4.5.0.0.1.0.0.64.17.0."+hx(a)+".0a000002..,110,"+hx(payloads()))
+		add("new:4.5.0.0.1.0.0.64.17.0.0a000001."+hx(a)+"..,111,"+hx(payloads()))
 	}
 	// (g') total length 65535-3 .. 65535+3 (header + payload), without and with options: the 16 bit
 	// Length field at its bound, the wrap beyond it, and Length 0 (TSO rule) at exactly 65536
